@@ -12,6 +12,7 @@ package motion
 import (
 	"fmt"
 	"testing"
+	"time"
 )
 
 const c12Stride = 512
@@ -207,6 +208,9 @@ func c12Desc(cfg fsmConfig, script []fsmEvent, class string, fault func(int, byt
 func TestVerif_C12(t *testing.T) {
 	c := vStart(t, "C12", "TestVerif_C12")
 	defer c.Finish()
+	// a fault or request that wedges the frame loop (a lock never released, a channel nobody
+	// reads) shows as a case that never returns
+	c.CaseWatchdog(120 * time.Second)
 	cfgs := c12Configs()
 	maxLen := int(c.N(5, 8)) // length 8 (thorough) only on the configurations with the continuous recorder on
 	group := int64(0)
@@ -239,7 +243,9 @@ func TestVerif_C12(t *testing.T) {
 					x /= len(c12Alphabet)
 				}
 				// fault-free run: fixes the number of sink calls inside the script
-				base, nScript := c12Execute(cfg, script, nil)
+				var base *fsmRun
+				var nScript int
+				c.Guarded(g*c12Stride, c12Desc(cfg, script, "fault-free", nil), func() { base, nScript = c12Execute(cfg, script, nil) })
 				var placements []c12Fault
 				var counts [3][4]int
 				for si := 0; si < nScript; si++ {
